@@ -33,6 +33,12 @@ class K:
         v = x + 3
         return v
 
+    @logged
+    @logged
+    def deco2(self, x):          # two wraps-style decorators on top of each other
+        v = x + 7
+        return v
+
     def tree(self, x):
         """calls itself on other instances (self.kids) BEFORE binding v: the receivers of the inner calls must not be
         confused with the receiver of the outer one"""
